@@ -6,7 +6,7 @@ HARNESS_TIMEOUT = {'quick': 900, 'thorough': 7200}
 
 # files whose failure means the executable model itself does not build
 MODEL_FILES = ['theories/Base.v', 'theories/Lines.v', 'theories/Lifecycle.v', 'theories/Regex.v', 'theories/Claims.v',
-               'theories/Obs.v', 'theories/CaseClaims.v', 'theories/RunC14.v', 'theories/RunHist.v', 'theories/RunCodec.v', 'theories/RunEv.v', 'theories/RunCose.v', 'theories/RunEmb.v', 'theories/Embedded.v', 'theories/RunReg.v', 'theories/Registry.v', 'theories/Json.v', 'theories/JsonCodec.v', 'theories/RunJson.v', 'theories/Evidence.v', 'theories/Gates.v', 'theories/Cose.v', 'theories/Cbor.v', 'theories/Utf8.v', 'theories/Tags.v', 'theories/Wire.v', 'theories/Codec.v', 'theories/Run.v', 'gen/GenTags.v', 'spec/SpecTags.v', 'spec/SpecTables.v', 'gen/GenConsts.v']
+               'theories/Obs.v', 'theories/CaseClaims.v', 'theories/RunC14.v', 'theories/RunHist.v', 'theories/RunCodec.v', 'theories/RunEv.v', 'theories/RunCose.v', 'theories/RunEmb.v', 'theories/Embedded.v', 'theories/RunReg.v', 'theories/Registry.v', 'theories/Json.v', 'theories/JsonCodec.v', 'theories/RunJson.v', 'theories/Purity.v', 'theories/Effects.v', 'theories/RunPur.v', 'gen/GenEffects.v', 'theories/Evidence.v', 'theories/Gates.v', 'theories/Cose.v', 'theories/Cbor.v', 'theories/Utf8.v', 'theories/Tags.v', 'theories/Wire.v', 'theories/Codec.v', 'theories/Run.v', 'gen/GenTags.v', 'spec/SpecTags.v', 'spec/SpecTables.v', 'gen/GenConsts.v']
 
 TRUSTED_BASE = [
     'Coq 8.16.1 kernel (coqc; vm_compute used in tie obligations; no native_compute)',
@@ -82,6 +82,28 @@ def _claims_texts_utf8(tok):
             if len(f) == 5:
                 ok = ok and _utf8_ok(f[0]) and _utf8_ok(f[2]) and _utf8_ok(f[4])
     return ok
+
+
+def _c18_oracle(inp, obs, extra):
+    """C18 on the implementation's own observations: nothing changed, repeated calls agree"""
+    f = inp.split(' ')
+    if f[0] != 'PUR':
+        return None
+    ops = f[15:]
+    o = obs.split(' ')[1:]
+    seen = {}
+    for op, res in zip(ops, o):
+        if '/' not in res:
+            continue
+        val, st = res.rsplit('/', 1)
+        if st != 'same':
+            return 'the call %s changed an object (%s)' % (op, st)
+        if val == 'panic':
+            return 'the call %s panicked' % op
+        if op in seen and seen[op] != val:
+            return 'the call %s returned different results when repeated' % op
+        seen[op] = val
+    return None
 
 
 def _c12_oracle(inp, obs, extra):
@@ -270,6 +292,12 @@ PROPS = {
         cone=WIRE_CONE, level='proof', oracle=_c09_oracle, signature=_c09_signature, kernel_maxlen=9000,
         nontrivial=lambda i, o: not o.startswith('ok'), classify=lambda i, o: 'P%s valid=%s' % (i.split(' ')[1], o.split(' ')[0][:2]),
         rule='valid claims-sets of both profiles (generator of C03) and directly constructed invalid ones (1..2 deviations from the C01 alternatives, incl. invalid UTF-8 texts): EncodeClaimsToCBOR, DecodeClaimsFromCBOR of the result, all getters before and after, re-encode; the property is evaluated on the implementation (oracle) and every observation is compared with the model; non-trivial = the input claims-set is not valid',
+    ),
+    'C18': dict(
+        cone=WIRE_CONE + ['theories/EvidenceProofs.v', 'theories/PurityProofs.v', 'ties/TieEffects.v'], level='proof', oracle=_c18_oracle, kernel_maxlen=4000,
+        nontrivial=lambda i, o: True,
+        classify=lambda i, o: 'P%s %s ops=%s' % (i.split(' ')[2], o.split(' ')[0], 'few' if len(i.split(' ')) < 23 else 'many'),
+        rule='claims-sets of both profiles, valid and invalid in one claim (C01 alternatives), incl. profile-1 sets with an empty component list (the case the marshallers normalise): a fresh Evidence holding the claims-set is signed with one of five real keys, the token is decoded by DecodeEvidenceFromCOSE and the input buffer is then overwritten; random sequences of 2..30 read-side calls (Validate, all getters, EncodeClaimsToCBOR / JSON and the validating twins on the claims-set; Verify with the right or another key, MarshalJSON, getters on the signing Evidence; Verify, getters, Validate, encodings, MarshalJSON on the decoded Evidence), every fourth call repeated at once; before and after every call a reflect-based deep dump (following pointers and interfaces, unexported fields included, no addresses) of the claims-set and of both Evidence objects is compared; every result is compared with the model; distinct = distinct input line',
     ),
     'C12': dict(
         cone=WIRE_CONE + ['theories/JsonProofs.v'], level='proof', oracle=_c12_oracle, kernel_maxlen=5000,
